@@ -348,7 +348,9 @@ func execC05(c c05Case) Outcome {
 			labels = append(labels, "junk:"+c.Junk.Kind)
 		} else {
 			labels = append(labels, "form:"+c.M.Form)
-			if c.Fault == "encoder_error" {
+			// (whether a failure line yields an event at all is C06/C17's concern: the
+			// write error must be returned only if a write was attempted)
+			if c.Fault == "encoder_error" && rec.Calls() > 0 {
 				if ret == nil || !errors.Is(ret, errInjected) {
 					return fail("event write failed but processing returned %v (want the write error)", ret)
 				}
